@@ -62,7 +62,15 @@ func raceTwo(at string, callA, callB func() string) (a, b string, parkedOK bool)
 		}()
 		a = callA()
 	}()
-	parkedOK = p.waitParked(5 * time.Second)
+	// A either parks at the yield point or completes without reaching it
+	finished := make(chan struct{})
+	go func() { wg.Wait(); close(finished) }()
+	select {
+	case <-p.parked:
+		parkedOK = true
+	case <-finished:
+	case <-time.After(5 * time.Second):
+	}
 	func() {
 		defer func() {
 			if e := recover(); e != nil {
@@ -291,6 +299,46 @@ func witnessSchemaFlushWindow(c *core.Ctx, db string) error {
 	r.field(m, 3)
 	r.schema(m)
 	c.Branch("witness-schema-flush-window")
+	c.NonTrivial()
+	return r.err
+}
+
+// witnessLookupVsFlush: a get-or-create for names that exist (the namespace and the metric name sit in
+// the immutable maps after PrepareFlush) runs against a whole metadata flush. The caller is stopped
+// right after it has taken the store's snapshot (yield index.kvstore.afterSnapshot), the flush runs
+// (kv commit, new snapshot, immutable = nil), the caller continues. lindb looks into the memory maps
+// first and never gets to the snapshot for a name that is in memory: it answers the old id (and the
+// flush runs afterwards). With the persisted bucket first the caller would miss twice and create a
+// second id.
+func witnessLookupVsFlush(c *core.Ctx, db string) error {
+	r, err := newRunner(c, db, 1, 0)
+	if err != nil {
+		return err
+	}
+	defer r.close()
+	r.o.tag = "lookup-vs-flush-"
+	const ns, name = 0, 0
+	r.metric(ns, name)
+	r.mprepare()
+	op := fmt.Sprintf("lflush %d %d %d", nsBucket(ns), ns, name)
+	var a string
+	var parked bool
+	r.guard(op, func() string {
+		a, _, parked = raceTwo("index.kvstore.afterSnapshot",
+			func() string { return idOut(r.s.genMetric(ns, name)) },
+			func() string { return okOut(r.s.meta.Flush()) })
+		return a
+	})
+	r.o.syncDone()
+	if parked {
+		c.Branch("witness-lookup-vs-flush-parked")
+	}
+	if id, ok := parseID(a); ok {
+		r.o.observe(nameKey{"metric", strconv.Itoa(ns), strconv.Itoa(name)}, id, op)
+	}
+	r.metric(ns, name)
+	r.metric(ns, 1)
+	c.Branch("witness-lookup-vs-flush")
 	c.NonTrivial()
 	return r.err
 }
